@@ -688,6 +688,45 @@ func msgConfirmFacts() (unpacks, compares bool) {
 	return unpacks, compares
 }
 
+// genesisOwnerByExternal: how InitGenesis (x/crosschain/keeper/genesis.go) finds the oracle an imported batch /
+// oracle-set confirm belongs to: by comparing the confirm's BridgerAddress with every oracle record's (false, the
+// tree as it is) or through GetOracleAddrByExternalAddr(ctx, confirm.ExternalAddress) (true).  Mixed shapes fail.
+func genesisOwnerByExternal() bool {
+	_, f := parseFile(filepath.Join(repo(), "x/crosschain/keeper/genesis.go"))
+	fd := findFunc(f, "", "InitGenesis")
+	if fd == nil || fd.Body == nil {
+		die("genesis.go: InitGenesis not found")
+	}
+	byExt, byBridger := 0, 0
+	ast.Inspect(fd.Body, func(n ast.Node) bool {
+		switch x := n.(type) {
+		case *ast.CallExpr:
+			if s, ok := x.Fun.(*ast.SelectorExpr); ok && s.Sel.Name == "GetOracleAddrByExternalAddr" && len(x.Args) == 2 {
+				if a, ok := x.Args[1].(*ast.SelectorExpr); ok && a.Sel.Name == "ExternalAddress" {
+					byExt++
+				}
+			}
+		case *ast.BinaryExpr:
+			if x.Op == token.EQL || x.Op == token.NEQ {
+				l, lok := x.X.(*ast.SelectorExpr)
+				r, rok := x.Y.(*ast.SelectorExpr)
+				if lok && rok && l.Sel.Name == "BridgerAddress" && r.Sel.Name == "BridgerAddress" {
+					byBridger++
+				}
+			}
+		}
+		return true
+	})
+	switch {
+	case byExt == 2 && byBridger == 0:
+		return true
+	case byExt == 0 && byBridger == 2:
+		return false
+	}
+	die("genesis.go: InitGenesis: cannot tell how the owner of imported confirms is resolved (%d external-address look-ups, %d bridger comparisons)", byExt, byBridger)
+	return false
+}
+
 // ---------------------------------------------------------------- Solidity side
 
 // stripComments removes // and /* */ comments, leaving string literals intact.
@@ -1050,6 +1089,9 @@ func main() {
 	unpacks, compares := msgConfirmFacts()
 	fmt.Fprintf(&b, "\n(* x/crosschain/types: MsgConfirm implements UnpackInterfaces / has a ValidateBasic comparing the two bridger addresses *)\n")
 	fmt.Fprintf(&b, "Definition msgconfirm_unpacks : bool := %v.\nDefinition msgconfirm_vb_compares_bridger : bool := %v.\n", unpacks, compares)
+
+	fmt.Fprintf(&b, "\n(* x/crosschain/keeper/genesis.go InitGenesis: the owner of an imported confirm is looked up by its external address (true) or by its bridger address (false) *)\n")
+	fmt.Fprintf(&b, "Definition genesis_confirm_owner_by_external : bool := %v.\n", genesisOwnerByExternal())
 
 	out := os.Getenv("VERIF_OUT")
 	if out == "" {
